@@ -9,6 +9,7 @@ observable and checked against generic invariants.
 """
 from .. import flowcheck
 from .. import floworacle as fo
+from .. import floworacle_r3 as f3
 
 LEAN_MODULES = ['Props.C05']
 TRUSTED = ['harness/flow_impl.py (yaml renderer, canonicaliser, virtual clock, scripted random.uniform)',
@@ -17,19 +18,22 @@ TRUSTED = ['harness/flow_impl.py (yaml renderer, canonicaliser, virtual clock, s
            'CPython, ruamel.yaml (modelled, not verified)']
 ASSUMPTIONS = ['formatting inside decorators is restricted to the simple {key} grammar of PypyrModel/Fmt.lean',
                'context keys are strings; dict keys never mix bool/int/float',
-               'log output, real time and BaseException other than Exception subclasses are outside the observables']
+               'log output (not the log LEVEL: that is a generated input), real time and BaseException other than Exception subclasses are outside the observables']
 
 
 def run(env, res):
     res.rule = ('directed families (expectation from the property text) first, then seeded random pipelines '
                 '(1-3 pipelines, 1-4 groups, 0-4 steps per group, decorators with p~0.25 each, foreach items incl. '
                 'None/0/\'\'/False/[]/{}, 12% with a malformed group body or sequence item, 35% written in another '
-                'yaml layout: flow style, JSON, first step on line 1, other indentation); a case is '
+                'yaml layout: flow style, JSON, first step on line 1, other indentation, single-quoted / plain / block scalars, anchors + aliases, merge keys; every 4th case runs with the root logger at DEBUG, every 8th at INFO, every 8th at NOTIFY - the log level is an input); a case is '
                 'non-trivial when the model accepts it and it terminates; distinct by canonical program text')
     directed = [('c05', fo.c05_family, env.n(400, 100000)), ('c05-edge', fo.c05_edge_family, env.n(57, 100000)),
                 ('c05-text', fo.c05_text_family, env.n(120, 100000)),
                 ('c03-restore-midloop', fo.c03_midloop_family, env.n(44, 100000)),
-                ('c03-restore', fo.c03_family, env.n(60, 100000)), ('c03-recursive', fo.c03_recursive_family, env.n(28, 100000))]
+                ('c03-restore', fo.c03_family, env.n(60, 100000)), ('c03-recursive', fo.c03_recursive_family, env.n(28, 100000)),
+                ('c05-one-shot-iterable', f3.c05_oneshot_family, env.n(110, 100000)),
+                ('c05-big', f3.c05_big_family, env.n(10, 100000)),
+                ('c06-odd-errors', f3.c06_odd_errors_family, env.n(90, 100000))]
     flowcheck.run_streams(env, res, directed, env.n(500, 100000), weights={'fail': 3, 'set': 2},
                           random_monitor=flowcheck.monitor_all)
 
